@@ -12,6 +12,11 @@ keeps the result *well formed* where the recipe is well formed: coverages are so
 sets are sorted, records searched by tag are sorted.  `"raw": True` on the object switches that off.
 The only error raised is FontBuildError when an Offset16 / Offset32 / length field cannot hold its value.
 
+Helpers for code that interprets recipes instead of fonts (models, oracles):
+    coverage_order(cov) -> [gid...]   glyphs in coverage-index order as serialised
+    parallel(cov, array) -> array      a coverage-parallel array reordered the way build() reorders it
+    pua_cmap(num_glyphs), PUA          the private-use alphabet
+
 General escape hatches
     * wherever a table / lookup subtable / coverage / classdef / anchor is expected you may give
       `bytes`, or {"raw_bytes": "<hex>"}: emitted verbatim.
@@ -116,13 +121,13 @@ morx   {"version": 2, "chains": [{"default_flags": u32,
                                   "subtables": [S...]}]}
     S = {"kind": "rearrangement"|"contextual"|"ligature"|"noncontextual"|"insertion"  (or 0|1|2|4|5),
          "vertical":bool,"descending":bool,"all_directions":bool,"logical":bool   (coverage bits 0x80,0x40,0x20,0x10
-         of the top byte; "coverage": u8 overrides), "feature_flags": u32 (default 0xFFFFFFFF... see below),
+         of the top byte; "coverage": u8 overrides), "feature_flags": u32 (default 1, like a chain's "default_flags"),
          state machine kinds:  "classes": {gid: cls>=4}, "nclasses": n (default max(4, max class + 1)),
                                "class_format": 0|2|4|6|8|10 (AAT lookup format of the class table; default 6, 8 when empty),
                                "states": [[entryIdx]*nclasses ...]   (row 0 = start of text, row 1 = start of line;
                                short rows are padded with entry 0 unless "raw"),
                                "entries": [{"new_state": i, "flags": u16, ...per kind...}...]}
-    "feature_flags" defaults to 1.  Per kind:
+    Per kind:
       rearrangement   entry {"new_state","flags"}    flags: markFirst 0x8000, dontAdvance 0x4000, markLast 0x2000, verb = low 4 bits
       contextual      entry {"new_state","flags","mark_index","current_index"} (0xFFFF = none, the default);
                       flags: setMark 0x8000, dontAdvance 0x4000;  "substitutions": [{gid: gid} | {"format":f,"map":{...}} ...]
@@ -157,7 +162,7 @@ Notes on what ttf-parser 0.25 / rustybuzz actually require (checked against the 
 import struct
 import sys
 
-__all__ = ["build", "hexfont", "FontBuildError", "pua_cmap", "PUA"]
+__all__ = ["build", "hexfont", "FontBuildError", "pua_cmap", "PUA", "coverage_order", "parallel"]
 
 PUA = 0xE000
 
@@ -389,6 +394,30 @@ def _coverage(c):
     else:
         b.u16(fmt).u16(len(order)).u16s(order)
     return b, perm, len(flat)
+
+
+def coverage_order(c):
+    """Glyph ids of a recipe coverage in coverage-index order, as build() serialises it (cooked: sorted and
+    de-duplicated; raw: as written; format-2 ranges expanded).  For model-side flatteners of recipes."""
+    if c is None or _rawbytes(c) is not None or (isinstance(c, dict) and set(c.keys()) == {"offset"}):
+        return []
+    if isinstance(c, dict):
+        if "ranges" in c:
+            flat = [g for r in c["ranges"] for g in range(int(r[0]), int(r[1]) + 1)]
+        else:
+            flat = [int(g) for g in c.get("glyphs", [])]
+        if c.get("raw"):
+            return flat
+    else:
+        flat = [int(g) for g in c]
+    return sorted(set(flat))
+
+
+def parallel(c, arr):
+    """An array written parallel to recipe coverage `c` (in the recipe's glyph order) reordered to coverage-index
+    order, exactly as build() does: parallel(c, arr)[i] belongs to coverage_order(c)[i]."""
+    _, perm, n = _coverage(c)
+    return _permute(arr, perm, n)
 
 
 def _permute(arr, perm, n):
